@@ -144,7 +144,11 @@ func (v DBView) Canon() string {
 	for _, mb := range v.Mboxes {
 		fmt.Fprintf(&b, "[%s r=%s v#%d next=%d sub=%v:", mb.Name, mb.Remote, rank[mb.UIDValidity], mb.UIDNext, mb.Subscribed)
 		for _, m := range mb.Msgs {
-			fmt.Fprintf(&b, " (%d %s %v r=%v)", m.UID, m.Remote, m.Flags, m.Recent)
+			remote := m.Remote
+			if strings.HasPrefix(remote, "GLUON-RECOVERED-MESSAGE-") {
+				remote = "GLUON-RECOVERED-MESSAGE" // random suffix
+			}
+			fmt.Fprintf(&b, " (%d %s %v r=%v)", m.UID, remote, m.Flags, m.Recent)
 		}
 		b.WriteString("]")
 	}
